@@ -436,7 +436,10 @@ def run_job(job):
     crash = None
     if rc != 0:
         m = re.search(r"CRASH signal=(\d+) choices=([\d,]*)", out + err)
-        crash = dict(rc=rc, text=(err or out)[-1500:], choices=m.group(2) if m else None)
+        # the scenario that was running: the first one of this invocation that has not printed its summary
+        done = set(h["scenario"] for h in heads)
+        running = next((nm for nm in job.get("names", []) if nm not in done), None)
+        crash = dict(rc=rc, text=(err or out)[-1500:], choices=(m.group(2).strip(",") if m else None), scenario=running)
     for r in rows:
         if "trace" not in r:
             continue
@@ -455,7 +458,8 @@ def run_job(job):
         key = (strategy(sc), sc["n"], evs, tuple(obs[1]) if obs else None)
         d = distinct.get(key)
         if d is None:
-            distinct[key] = dict(scenario=r["scenario"], trace=r["trace"], choices=r["choices"], observed=obs, count=r["count"])
+            distinct[key] = dict(scenario=r["scenario"], trace=r["trace"] if len(distinct) < 40 else None,
+                                 choices=r["choices"], observed=obs, count=r["count"])
         else:
             d["count"] += r["count"]
     return dict(job=dict(args=job["args"], harness=job["harness"]), heads=heads, fails=fails, maperr=maperr,
@@ -509,9 +513,11 @@ QUICK_EXHAUSTIVE = ("vecUval", "varUhet", "vecUvoid")
 def plan(tier, seed, where, exes, harness, quick_exhaustive=QUICK_EXHAUSTIVE):
     """The exploration jobs: one harness invocation per (configuration, arrangement)."""
     groups = {}
-    for name, p in where.items():
+    names = {}
+    for name, p in where.items():     # insertion order = registration order = execution order
         sc = parse_name(name)
         groups.setdefault((sc["cfg"], sc["arr"]), (sc, p))
+        names.setdefault((sc["cfg"], sc["arr"]), []).append(name)
     jobs = []
     for k, ((cfg, arr), (sc, p)) in enumerate(sorted(groups.items())):
         n, shared = sc["n"], sc["inputs"] != "U"
@@ -521,21 +527,21 @@ def plan(tier, seed, where, exes, harness, quick_exhaustive=QUICK_EXHAUSTIVE):
         elif n == 2 and arr != "p":
             fi = cfg.split("/")[1]
             if tier == "thorough":
-                mode, args = "dfs", ["--mode", "dfs", "--max", "400000" if shared else "1500000"]
-            elif fi in quick_exhaustive:
+                mode, args = "dfs", ["--mode", "dfs", "--max", "120000" if shared else "1500000"]
+            elif fi in quick_exhaustive and arr != "q01":
                 mode, args = "dfs", ["--mode", "dfs", "--max", "300000"]
             else:
-                mode, args = "dfs-pb2", ["--mode", "dfs", "--pb", "2", "--max", "5000"]
+                mode, args = "dfs-pb2", ["--mode", "dfs", "--pb", "2", "--max", "4000"]
         elif n == 2:
             if tier == "thorough":
-                mode, args = "dfs-pb3", ["--mode", "dfs", "--pb", "3", "--max", "60000"]
+                mode, args = "dfs-pb3", ["--mode", "dfs", "--pb", "3", "--max", "30000"]
             else:
                 mode, args = "dfs-pb2", ["--mode", "dfs", "--pb", "2", "--max", "4000"]
         else:
-            cnt = (600 if n == 3 else 250) if tier == "thorough" else (40 if n == 3 else 12)
+            cnt = (400 if n == 3 else 150) if tier == "thorough" else (40 if n == 3 else 12)
             mode, args = "random", ["--mode", "random", "--max", str(cnt), "--seed", str(seed * 100000 + k * 97)]
         jobs.append(dict(exe=exes[p], harness=harness, part=p, cfg=cfg, arr=arr, n=n, mode=mode,
-                         args=args + ["--only", only], timeout=1700))
+                         args=args + ["--only", only], names=names[(cfg, arr)], timeout=1700))
     return jobs
 
 
@@ -577,6 +583,24 @@ def run_check(ck, pid, harness, nparts, props, quick_exhaustive=QUICK_EXHAUSTIVE
     if todo:
         raise vlib.BuildError("the harness executables keep disappearing from the build cache (concurrent pruning)")
     t_explore = time.time() - t0
+    # ---- thorough tier: the same harness under ASan + UBSan (use-after-free / double free / leak of an input state, of the
+    # combinator or of the output state), seeded random schedules over every scenario
+    asan = None
+    if ck.tier == "thorough":
+        fa = compile_parts("FA", src, harness, nparts)
+        fa_jobs = []
+        for k, ((cfg, arr), p) in enumerate(sorted({(j["cfg"], j["arr"]): j["part"] for j in jobs}.items())):
+            fa_jobs.append(dict(exe=fa[p], harness=harness, part=p, cfg=cfg, arr=arr, mode="asan-random",
+                                names=next((j["names"] for j in jobs if j["cfg"] == cfg and j["arr"] == arr), []),
+                                args=["--mode", "random", "--max", "12", "--seed", str(ck.seed * 7919 + k),
+                                      "--only", "%s/%s/" % (cfg, arr)], timeout=1700))
+        with concurrent.futures.ProcessPoolExecutor(max(2, (vlib.NPROC * 3) // 4)) as ex:
+            fa_results = list(ex.map(run_job, fa_jobs, chunksize=1))
+        asan = dict(scenarios=sum(len(r["heads"]) for r in fa_results),
+                    executions=sum(h["executions"] for r in fa_results for h in r["heads"]))
+        ck.cov["asan"] = asan
+        jobs = jobs + fa_jobs
+        results = results + fa_results
     # ---- oracle verdicts
     heads = [h for r in results for h in r["heads"]]
     ck.cov["evaluations"] = sum(h["executions"] for h in heads)
@@ -592,16 +616,18 @@ def run_check(ck, pid, harness, nparts, props, quick_exhaustive=QUICK_EXHAUSTIVE
     dfs = by_mode.get("dfs", dict(scenarios=0, exhaustive=0))
     ck.cov["exhaustive"] = dfs["scenarios"] > 0 and dfs["exhaustive"] == dfs["scenarios"]
     for job, r in zip(jobs, results):
+        config = "FA" if job["mode"].startswith("asan") else "F"
         if r["crash"]:
             ck.hits.append(dict(what="%s: harness crashed (rc=%s) %s" % (job["cfg"], r["crash"]["rc"], r["crash"]["text"][-600:]),
                                 key="crash:" + job["cfg"].split("/")[0],
-                                replay=dict(harness=harness, part=job["part"], args=job["args"], choices=r["crash"]["choices"])))
+                                replay=dict(harness=harness, config=config, part=job["part"], args=job["args"],
+                                            scenario=r["crash"].get("scenario"), choices=r["crash"]["choices"])))
         for f in r["fails"]:
             sc = parse_name(f["scenario"])
             ck.hits.append(dict(what="%s: %s" % (f["scenario"], f["fail"]),
                                 key=sc["kind"] + ":" + re.sub(r"\d+", "N", f["fail"])[:48].replace(" ", "_"),
-                                replay=dict(harness=harness, part=job["part"], scenario=f["scenario"], choices=f["choices"],
-                                            trace=f["trace"])))
+                                replay=dict(harness=harness, config=config, part=job["part"], scenario=f["scenario"],
+                                            choices=f["choices"], trace=f["trace"])))
         for e in r["maperr"][:3]:
             ck.gen_obligation("correspondence When (trace vocabulary) on %s" % e["scenario"], False,
                               "%s\ntrace: %s\nchoices: %s" % (e["why"], e["trace"], e["choices"]))
@@ -660,12 +686,22 @@ def run_check(ck, pid, harness, nparts, props, quick_exhaustive=QUICK_EXHAUSTIVE
                       "preemption-bounded DFS for two producers racing the builder (p); seeded random schedules for n=3,4; "
                       "each execution is mapped to events of When.v and deduplicated; distinct_model_traces counts distinct (strategy, n, event sequence, observed output); "
                       "non-trivial = the steps of two different inputs interleave (some input's registration/exchange/consume events are not contiguous)") % harness
+    with_text = [k for k in keys if merged[k]["trace"] is not None]
     ck.cov["samples"] = [dict(scenario=merged[k]["scenario"], trace=merged[k]["trace"], choices=merged[k]["choices"],
-                              executions=merged[k]["count"]) for k in keys[:2] + [k for k in keys if interleaved(k[2])][:3]]
+                              events=[render_coq(e) for e in k[2]], executions=merged[k]["count"])
+                         for k in with_text[:2] + [k for k in with_text if interleaved(k[2])][:3]]
     ck.cov["wall_explore_s"] = round(t_explore, 1)
     for d, why in bad[:10]:
+        trace = d["trace"]
+        if trace is None:
+            try:
+                rows, _o, _e, _rc = runner.run_harness(exes[where[d["scenario"]]],
+                                                       ["--mode", "replay", "--exact", d["scenario"], "--choices", d["choices"]])
+                trace = next((r["trace"] for r in rows if "trace" in r), None)
+            except Exception:
+                pass
         ck.broken.append(dict(name="correspondence When.run vs implementation on %s" % d["scenario"],
-                              detail="%s\ntrace: %s\nchoices: %s" % (why, d["trace"], d["choices"])))
+                              detail="%s\ntrace: %s\nchoices: %s" % (why, trace, d["choices"])))
     if not keys:
         ck.broken.append(dict(name="correspondence When.run vs implementation", detail="the harness produced no traces"))
     return dict(exes=exes, jobs=jobs, results=results, merged=merged)
@@ -679,7 +715,7 @@ def replay_hit(ck, path, harness, nparts):
         return 0
     src = os.path.join(vlib.VERIF, "harness", harness + ".cpp")
     part = rp.get("part", 0)
-    exe, b = vlib.compile_harness("F", [src], "%s_p%d" % (harness, part), extra=["-DWH_PART=%d" % part])
+    exe, b = vlib.compile_harness(rp.get("config", "F"), [src], "%s_p%d" % (harness, part), extra=["-DWH_PART=%d" % part])
     if rp.get("scenario"):
         args = ["--mode", "replay", "--exact", rp["scenario"], "--choices", rp.get("choices") or ""]
     else:
